@@ -33,13 +33,15 @@ def _explore(task):
     hname, cfg, tier, seed, limits, prefix, split_at = task
     t0 = time.time()
     out = dict(cfg=cfg, subtrees=[], paths=0, aborted=0, decisions=0, queries=0, obligations=0, discharged=0,
-               solver_time=0.0, violations=[], inconclusive=[], witnesses=[], reach=0,
+               solver_time=0.0, retries=0, violations=[], inconclusive=[], witnesses=[], reach=0,
                internal_assumptions=[], error=None, wall=0.0)
     try:
         if ROOT not in sys.path:
             sys.path.insert(0, ROOT)
         from models import env
         if not _INSTALLED:
+            import warnings
+            warnings.simplefilter('ignore')
             env.install_symbolic()
             _INSTALLED.append(True)
         from engine import symx, ctx as C
@@ -82,7 +84,7 @@ def _explore(task):
         if split_at is not None and E.split_done:
             out['subtrees'] = [pfx for pfx, _ in E.worklist]
         out.update(paths=E.n_paths, aborted=E.n_aborted, decisions=E.n_decisions, queries=E.n_queries,
-                   obligations=E.n_obligations, discharged=E.n_discharged, solver_time=E.solver_time,
+                   obligations=E.n_obligations, discharged=E.n_discharged, solver_time=E.solver_time, retries=E.n_retries,
                    inconclusive=list(E.inconclusive), reach=E.paths_reaching_assert,
                    internal_assumptions=sorted(E.internal_assumptions))
         for v in E.violations:
@@ -258,7 +260,7 @@ def _finish(pid, hname, h, tier, seed, results, real, t0, limits):
     status = EXIT_OK
     messages = []
     errors = [r for r in results if r['error']]
-    inconcl = [m for r in results for m in r['inconclusive']]
+    inconcl = ['%s [cfg=%s]' % (m, json.dumps(r['cfg'], sort_keys=True)) for r in results for m in r['inconclusive']]
 
     # --- witness validation on the real implementation
     wreqs, wmeta = [], []
@@ -389,6 +391,7 @@ def _finish(pid, hname, h, tier, seed, results, real, t0, limits):
             paths_aborted_by_assume=sum(r['aborted'] for r in results),
             solver_queries=sum(r['queries'] for r in results),
             solver_time_s=round(sum(r['solver_time'] for r in results), 2),
+            solver_retries_after_unknown=sum(r['retries'] for r in results),
             cpu_s=round(sum(r['wall'] for r in results), 1),
             witnesses_sampled=len(wreqs), witnesses_skipped_rounding=wit_skipped,
             counterexamples=n_cex_total, counterexamples_replayed=len(vreqs), counterexamples_reproduced=n_viol + n_known,
